@@ -156,6 +156,10 @@ func matchLogfmtLeaf(v GVal, raw string) string {
 		return ""
 	}
 	switch v.Kind {
+	case "holder":
+		if raw != "" {
+			return bad("the key of a list given as a value carries a value of its own")
+		}
 	case "nil":
 		if raw != "<nil>" && raw != "null" {
 			return bad("nil placeholder")
@@ -237,6 +241,18 @@ func flattenLogfmt(prefix string, as []GAttr, out *[]lfExpect) {
 		}
 		if a.Val.Kind == "group" {
 			flattenLogfmt(k, a.Val.Items, out)
+			continue
+		}
+		// a list / a group given as the VALUE of a key (direct-oracle corpus only): the key itself with an empty value, then
+		// the members under its dotted name (the group's own name in between)
+		if a.Val.Kind == "attrsval" {
+			*out = append(*out, lfExpect{k, GVal{Kind: "holder"}})
+			flattenLogfmt(k, a.Val.Items, out)
+			continue
+		}
+		if a.Val.Kind == "groupval" {
+			*out = append(*out, lfExpect{k, GVal{Kind: "holder"}})
+			flattenLogfmt(k+"."+a.Val.S, a.Val.Items, out)
 			continue
 		}
 		*out = append(*out, lfExpect{k, a.Val})
